@@ -18,6 +18,7 @@ import (
 
 type facadeObj struct {
 	kind    string // prefix | resource
+	from    string // the pool pattern this object's pattern was cut from
 	pattern string
 	mws     []string // as the facade stores them: own arguments first, then the parent's
 	pA      *mux.Prefix[*mon.Hnd]
@@ -170,7 +171,7 @@ func runC19(c *Ctx) {
 			if r.Chance(1, 6) {
 				cut = 0 // the empty prefix
 			}
-			o := &facadeObj{kind: "prefix", pattern: p[:cut], mws: names}
+			o := &facadeObj{kind: "prefix", from: p, pattern: p[:cut], mws: names}
 			o.pA = w.a.Prefix(o.pattern, w.mws(w.envA, names)...)
 			w.objs = append(w.objs, o)
 			w.ops = append(w.ops, fmt.Sprintf("o%d := r.Prefix(%q, %v)", len(w.objs)-1, o.pattern, names))
@@ -187,13 +188,13 @@ func runC19(c *Ctx) {
 			}
 			pi := ref.Pick(r, parents)
 			par := w.objs[pi]
-			rest := p
-			if strings.HasPrefix(p, par.pattern) {
-				rest = p[len(par.pattern):]
+			if !strings.HasPrefix(p, par.pattern) {
+				p = par.from // stay below the parent so that the concatenated pattern is well-formed
 			}
+			rest := p[len(par.pattern):]
 			cut := r.Intn(len(rest) + 1)
 			if r.Bool() {
-				o := &facadeObj{kind: "prefix", pattern: par.pattern + rest[:cut], mws: append(append([]string{}, names...), par.mws...)}
+				o := &facadeObj{kind: "prefix", from: p, pattern: par.pattern + rest[:cut], mws: append(append([]string{}, names...), par.mws...)}
 				o.pA = par.pA.Prefix(rest[:cut], w.mws(w.envA, names)...)
 				w.objs = append(w.objs, o)
 				w.ops = append(w.ops, fmt.Sprintf("o%d := o%d.Prefix(%q, %v)", len(w.objs)-1, pi, rest[:cut], names))
@@ -226,10 +227,12 @@ func runC19(c *Ctx) {
 		full := o.pattern
 		if o.kind == "prefix" {
 			p := ref.Pick(r, w.pool)
-			if strings.HasPrefix(p, o.pattern) {
-				rest = p[len(o.pattern):]
-			} else {
-				rest = ref.Pick(r, []string{"/z", "", "x"})
+			if !strings.HasPrefix(p, o.pattern) {
+				p = o.from // the pattern the prefix was cut from: the concatenation is well-formed
+			}
+			rest = p[len(o.pattern):]
+			if r.Chance(1, 5) {
+				rest += ref.Pick(r, []string{"/z", "x", "/zz/{q}"})
 			}
 			full = o.pattern + rest
 		}
